@@ -196,6 +196,11 @@ func (c14) Gen(rng *simrt.Rand, tier string, run int) interface{} {
 	if run%3 == 2 {
 		p.System = "dir"
 		p.HighFds = rng.Chance(1, 4)
+		if rng.Chance(1, 2) {
+			// List needs several getdents calls: its documented non-atomicity is
+			// exercised and judged by the sandwich oracle
+			p.DirentsPerCall = 1 + rng.Intn(2)
+		}
 	}
 	p.Dirs = []string{"d0"}
 	if rng.Chance(1, 2) {
@@ -346,7 +351,7 @@ func (c14) Exec(pj json.RawMessage, tape *simrt.Tape, keepLog bool) harness.RunO
 	if err := json.Unmarshal(pj, &p); err != nil {
 		return harness.RunOut{Infra: err.Error()}
 	}
-	env, err := newFsEnv(p.System, false, simunix.Config{HighFds: p.HighFds})
+	env, err := newFsEnv(p.System, false, simunix.Config{HighFds: p.HighFds, DirentsPerCall: p.DirentsPerCall})
 	if err != nil {
 		return harness.RunOut{Infra: err.Error()}
 	}
